@@ -20,6 +20,22 @@ Record shape := mkShape {
 Definition bytes_string (l : list Z) : string :=
   fold_right (fun b s => String (ascii_of_N (Z.to_N b)) s) EmptyString l.
 
+(* byte lists are written by the case writer as hex strings (a list literal of numbers is slow to parse) *)
+Definition hexval (c : ascii) : Z :=
+  let n := Z.of_N (N_of_ascii c) in if Z.ltb n 58 then (n - 48)%Z else (n - 87)%Z.
+Fixpoint hx (s : string) : list Z :=
+  match s with
+  | String a (String b r) => (16 * hexval a + hexval b)%Z :: hx r
+  | _ => []
+  end.
+(* changed bytes: 4 hex digits of index, 2 of the new byte *)
+Fixpoint hxd (s : string) : list (Z * Z) :=
+  match s with
+  | String a (String b (String c (String d (String e (String f r))))) =>
+      (((16 * hexval a + hexval b) * 16 + hexval c) * 16 + hexval d, 16 * hexval e + hexval f)%Z :: hxd r
+  | _ => []
+  end.
+
 Definition oentry_eqb (a b : oentry) : bool :=
   String.eqb (o_name a) (o_name b) && String.eqb (o_key a) (o_key b) && String.eqb (o_type a) (o_type b) &&
   Z.eqb (o_off a) (o_off b) && Z.eqb (o_root a) (o_root b) && Z.eqb (o_id a) (o_id b) &&
